@@ -1223,10 +1223,10 @@ func SelectExpr(query *Query, current Map, expr *sqlparser.SelectExprs, opts ...
 		case *sqlparser.StarExpr:
 			{
 				for key, value := range current {
-					query.postProcessors = append(query.postProcessors, func() error {
-						delete(data, "<-")
-						return nil
-					})
+					// the backward-navigation marker is not part of the row
+					if key == "<-" {
+						continue
+					}
 					data[key] = value
 				}
 			}
